@@ -910,7 +910,7 @@ class NetworkGraph(AbstractBaseIR):
                 for t, s, w in zip(tidx, sidx, weight):
                     row = np.argwhere(tidx_unique == t).squeeze()
                     col = np.argwhere(sidx_unique == s).squeeze()
-                    weight_mat[row, col] = w
+                    weight_mat[row, col] += w
 
                 # define edge projection equation
                 s_str_final = _get_indexed_var_str(s_str, sidx_unique, ssize, idx_str=sidx_str, arg_dict=args)
